@@ -79,7 +79,11 @@ void EpollLoop::runLoop(Mode mode)
 
         for (int i = 0; i < fds; ++i) {
             epoll_event &ev = events.at(i);
-            EpollFdEvent::OnEventCallback(ev.events, ev.data.ptr);
+            //! the shared data of this fd may have been released (and even reused for another fd)
+            //! by a callback served earlier in this pass, so look it up again
+            auto iter = fd_data_map_.find(ev.data.fd);
+            if (iter != fd_data_map_.end())
+                EpollFdEvent::OnEventCallback(ev.events, iter->second);
         }
 
         //handleRunInLoopFunc();
@@ -114,7 +118,7 @@ EpollFdSharedData* EpollLoop::refFdSharedData(int fd)
 
         ::memset(&fd_shared_data->ev, 0, sizeof(fd_shared_data->ev));
         fd_shared_data->fd = fd;
-        fd_shared_data->ev.data.ptr = static_cast<void *>(fd_shared_data);
+        fd_shared_data->ev.data.fd = fd;
 
         fd_data_map_.insert(std::make_pair(fd, fd_shared_data));
     }
